@@ -169,3 +169,109 @@ lines.append("#define VERIF_VIEW_CLASSES(X) " + " ".join("X(%s)" % c for c in fi
 lines.append("#define VERIF_VIEW_ROWS %d" % rows)
 open(OUT, "w").write("\n".join(lines) + "\n")
 print("wrote", OUT, len(final), "classes", rows, "accessor rows")
+
+# ------------------------------------------------------------------------------------------------
+# setter table: genlib/setters_gen.inc
+SOUT = os.path.join(os.path.dirname(os.path.abspath(__file__)), "..", "genlib", "setters_gen.inc")
+BUILTIN = ("uint8_t", "uint16_t", "uint32_t", "uint64_t", "int8_t", "bool", "small_uint", "std::", "RSNInformation", "PDU")
+SKIP_SET = {("PDU", "inner_pdu"), ("DNS", "add_query"), ("DNS", "add_answer"), ("DNS", "add_authority"), ("DNS", "add_additional"),
+            ("RawPDU", "payload"), ("ICMP", "set_time_exceeded"), ("ICMPExtensionsStructure", "add_extension"),
+            ("RTP", "add_extension_data"), ("RTP", "add_csrc_id"), ("BootP", "vend"), ("ICMPv6", "add_option"),
+            ("Dot11", "add_option"), ("TCP", "add_option"), ("IP", "add_option"), ("DHCP", "add_option"), ("DHCPv6", "add_option"),
+            ("IPv6", "add_header"), ("PPPoE", "add_tag"), ("RadioTap", "add_option"), ("ICMP", "use_length_field"), ("ICMPv6", "use_length_field"),
+            ("ICMPv6", "use_mldv2"), ("Dot1Q", "append_padding"), ("LLC", "group")}
+SET_PTR = {("RSNEAPOL", "key_iv"): 16, ("RSNEAPOL", "nonce"): 32, ("RSNEAPOL", "rsc"): 8, ("RSNEAPOL", "id"): 8, ("RSNEAPOL", "mic"): 16,
+           ("RC4EAPOL", "key_iv"): 16, ("RC4EAPOL", "key_sign"): 16, ("BootP", "sname"): 64, ("BootP", "file"): 128,
+           ("Dot11BlockAck", "bitmap"): 8}
+# setters whose getter has another name
+GETTER_OF = {("VXLAN", "set_flags"): "get_flags", ("VXLAN", "set_vni"): "get_vni"}
+EXTRA_SET = {  # invisible to the scan (tabs / inline bodies): (name, type, kind)
+    "LLC": [("dsap", "uint8_t", "S"), ("ssap", "uint8_t", "S"), ("group", "bool", "S"), ("response", "bool", "S")],
+    "VXLAN": [("set_flags", "uint8_t", "S"), ("set_vni", "small_uint<24>", "S")],
+    "RTP": [("version", "small_uint<2>", "S"), ("extension_bit", "small_uint<1>", "S"), ("marker_bit", "small_uint<1>", "S"),
+            ("payload_type", "small_uint<7>", "S"), ("sequence_number", "uint16_t", "S"), ("timestamp", "uint32_t", "S"),
+            ("ssrc_id", "uint32_t", "S"), ("extension_profile", "uint16_t", "S")],
+}
+
+def clean_type(t):
+    t = t.strip()
+    t = re.sub(r"\s*=\s*.*$", "", t)          # default argument
+    m = re.match(r"^(.*?)(\w+)$", t)           # drop the parameter name
+    if m and m.group(1).strip():
+        t = m.group(1).strip()
+    t = re.sub(r"^const\s+", "", t)
+    t = t.rstrip("&").strip()
+    t = t.replace("small_uint<1 >", "small_uint<1>")
+    return t
+
+import re
+srows = 0
+sl = ["// GENERATED by reflect/gen_view.py - do not edit by hand", ""]
+per_class = {}
+for c in final:
+    rows = []
+    seen = set()
+    for name, ptype in scan.get(c, {}).get("setters", []):
+        if (c, name) in SKIP_SET or name in seen:
+            continue
+        seen.add(name)
+        t = clean_type(ptype)
+        if (c, name) in SET_PTR:
+            rows.append(("P", name, str(SET_PTR[(c, name)]), "S"))
+            continue
+        if t.endswith("*"):
+            continue
+        if name in TYPED.get(c, ()):
+            kind = "O"
+        elif name in DERIVED.get(c, ()):
+            kind = "D"
+        elif name in TAGS.get(c, ()):
+            kind = "T"
+        else:
+            kind = "S"
+        q = t if t.startswith(BUILTIN) else "Tins::%s::%s" % (c, t)
+        if t == "byte_array":
+            q = "std::vector<uint8_t>"
+        if t == "RSNInformation":
+            q = "Tins::RSNInformation"
+        q = re.sub(r"std::vector<(\w+_type)>", r"std::vector<Tins::%s::\1>" % c, q)
+        rows.append(("V", name, q, kind))
+    for name, t, kind in EXTRA_SET.get(c, []):
+        if name not in seen:
+            rows.append(("V", name, t, kind))
+    per_class[c] = rows
+
+for c in final:
+    b = base_of(c)
+    rows = per_class[c]
+    nb = "n_setters_%s()" % b if b and b != "PDU" else "0u"
+    sl.append("static inline unsigned n_setters_%s() { return %s + %du; }" % (c, nb, len(rows)))
+    sl.append("static inline bool apply_setter_%s(Tins::%s& p, unsigned k, SetterCtx& sc) {" % (c, c))
+    if b and b != "PDU":
+        sl.append("    if (k < n_setters_%s()) return apply_setter_%s(p, k, sc);" % (b, b))
+        sl.append("    k -= n_setters_%s();" % b)
+    sl.append("    switch (k) {")
+    for i, (form, name, t, kind) in enumerate(rows):
+        g = GETTER_OF.get((c, name), name)
+        if form == "P":
+            sl.append("        case %d: VSP(%s, '%s', %s, %s, %s) return true;" % (i, c, kind, name, g, t))
+        else:
+            sl.append("        case %d: VS(%s, '%s', %s, %s, %s) return true;" % (i, c, kind, name, g, t))
+        srows += 1
+    sl.append("        default: return false;")
+    sl.append("    }")
+    sl.append("}")
+    sl.append("")
+sl.append("static inline unsigned n_setters(const Tins::PDU& pdu) {")
+for c in reversed(final):
+    sl.append("    if (typeid(pdu) == typeid(Tins::%s)) return n_setters_%s();" % (c, c))
+sl.append("    return 0;")
+sl.append("}")
+sl.append("static inline bool apply_setter(Tins::PDU& pdu, unsigned k, SetterCtx& sc) {")
+for c in reversed(final):
+    sl.append("    if (typeid(pdu) == typeid(Tins::%s)) return apply_setter_%s(static_cast<Tins::%s&>(pdu), k, sc);" % (c, c, c))
+sl.append("    return false;")
+sl.append("}")
+sl.append("#define VERIF_SETTER_ROWS %d" % srows)
+open(SOUT, "w").write("\n".join(sl) + "\n")
+print("wrote", SOUT, srows, "setter rows")
